@@ -381,7 +381,7 @@ def oracle(sm: dict):
 def run(ctx: core.Ctx) -> None:
     thorough = ctx.tier != 'quick'
     ctx.rule = (f'{len(FAULTS)} fault kinds x every macro step (= session state) of a {STEPS}-step session script, one fault per run'
-                + (' , plus every run with one earlier benign deviation (split delivery, API command in flight, 1 s wait)' if thorough else '')
+                + ', plus every run with one earlier benign deviation (split delivery, API command in flight, 1 s wait)' + (' for every configuration, and with two earlier benign deviations for hold time 9' if thorough else ' for hold time 9')
                 + '; hold time 9 and 0, and hold time 9 with adj-rib-in off; non-trivial = distinct (fault, state, notifications, closed) outcome')
     ctx.assumptions += ['state of injection = FSM state of the peer when the fault bytes are queued', 'RFC 7606 attribute errors may legally not reset the session']
     pool = mp.Pool(min(16, os.cpu_count() or 1))
@@ -401,10 +401,10 @@ def run(ctx: core.Ctx) -> None:
                 if choices and len(ctx.samples) < 5:
                     ctx.sample({'hold': hold, 'deviations': sorted(choices.items()), 'outcome': [list(map(str, o)) for o in outcome]})
 
-            if not thorough:
+            if not thorough and hold != 9:
                 n, completed, caps = edev.explore_layers(pool, run_one, (STEPS, hold), 1, record)
             else:
-                n, completed, caps = explore_benign_then_fault(pool, (STEPS, hold), record)
+                n, completed, caps = explore_benign_then_fault(pool, (STEPS, hold), record, two=thorough and hold == 9)
             for c in caps:
                 ctx.cap(c)
         ctx.counters['states'] = ctx.set_size('outcomes')
@@ -414,8 +414,9 @@ def run(ctx: core.Ctx) -> None:
         pool.join()
 
 
-def explore_benign_then_fault(pool, params, record):
-    """All runs with one fault, and all runs with one benign deviation followed by one fault."""
+def explore_benign_then_fault(pool, params, record, two=False):
+    """All runs with one fault, and all runs with one benign deviation followed by one fault
+    (two: also every pair of benign deviations followed by one fault)."""
     total = 0
     res0, menus0 = run_one((params, {}))
     record({}, res0)
@@ -423,7 +424,7 @@ def explore_benign_then_fault(pool, params, record):
     for i, (default, menu) in enumerate(menus0):
         for alt in menu:
             layer1.append({i: alt})
-    results = pool.map(run_one, [(params, c) for c in layer1], chunksize=8)
+    results1 = results = pool.map(run_one, [(params, c) for c in layer1], chunksize=8)
     layer2 = []
     for c, (res, menus) in zip(layer1, results):
         record(c, res)
@@ -440,7 +441,33 @@ def explore_benign_then_fault(pool, params, record):
     for c, (res, menus) in zip(layer2, results):
         record(c, res)
         total += 1
-    return total, 2, []
+    if not two:
+        return total, 2, []
+    # benign, benign, fault
+    pairs = []
+    for c, (res, menus) in zip(layer1, results1):
+        (i, alt), = c.items()
+        if alt.startswith('benign:'):
+            for j in range(i + 1, len(menus)):
+                for alt2 in menus[j][1]:
+                    if alt2.startswith('benign:'):
+                        c2 = dict(c)
+                        c2[j] = alt2
+                        pairs.append((c2, j))
+    res_pairs = pool.map(run_one, [(params, c) for c, _ in pairs], chunksize=8)
+    layer3 = []
+    for (c, j), (res, menus) in zip(pairs, res_pairs):
+        for k in range(j + 1, len(menus)):
+            for alt3 in menus[k][1]:
+                if alt3.startswith('fault:'):
+                    c3 = dict(c)
+                    c3[k] = alt3
+                    layer3.append(c3)
+    results = pool.map(run_one, [(params, c) for c in layer3], chunksize=16)
+    for c, (res, menus) in zip(layer3, results):
+        record(c, res)
+        total += 1
+    return total, 3, []
 
 
 def replay(case):
